@@ -71,8 +71,15 @@ Cases == [read : Limits, write : Limits, conns : 1..3, dir : {"download", "uploa
 \* big: one reply body reaches the listener in a single write larger than the burst (with --log-http body the proxy holds
 \* the whole body in memory); the cases carry big |-> TRUE
 BigCases == [read : {4}, write : {0}, conns : {1}, dir : {"download"}, kind : {"plain"}, churn : {FALSE}]
+\* fast: a limit high enough that a per-byte interval rounded to whole nanoseconds would show (160 MiB/s: 5.96 ns);
+\* the transfer is burst + one second's worth
+FastCases == [read : {160}, write : {0}, conns : {1}, dir : {"download"}, kind : {"plain"}, churn : {FALSE}]
+\* the limiter admits exactly the configured number of bytes per second, whatever the number
+Bandwidths == {1, 1000, 65536, 1048576, 4194304, 10485760, 41943040, 167772160, 419430400, 1000000000, 1073741824, 2000000000}
 LimitFor(c) == IF c.dir = "download" THEN c.read ELSE c.write
 Expect(c) == [limited |-> LimitFor(c) # 0, rate |-> LimitFor(c)]
 EmitCases == /\ \A c \in Cases : PrintT(ToJson([c |-> c, exp |-> Expect(c), big |-> FALSE]))
              /\ \A c \in BigCases : PrintT(ToJson([c |-> c, exp |-> Expect(c), big |-> TRUE]))
+             /\ \A c \in FastCases : PrintT(ToJson([c |-> c, exp |-> Expect(c), big |-> FALSE, fast |-> TRUE]))
+             /\ \A b \in Bandwidths : PrintT(ToJson([bandwidth |-> b, rate |-> b]))
 ==============================================================================
